@@ -1,5 +1,5 @@
 /-
-  Statrs.Draft.Lemmas.IntBisectMono — the trait-default `DiscreteCDF::inverse_cdf`
+  Statrs.Lemmas.IntBisectMono — the trait-default `DiscreteCDF::inverse_cdf`
   (src/distribution/mod.rs:210) and `internal::integral_bisection_search`
   (src/distribution/internal.rs:12) over ℝ for a function that is ONLY assumed non-decreasing
   (plateaus allowed, including a plateau exactly at the searched level — the case excluded by
